@@ -1,5 +1,5 @@
 # replay of a bounded stand-in violation (C11): re-run native/c11_compilers.py
 import sys
-print("gaussian_merge n=5 gates=[('MZgate', (1, 3)), ('Rgate', (2,)), ('Sgate', (1,)), ('Rgate', (0,)), ('CKgate', (3, 1)), ('Dgate', (0,)), ('Sgate', (1,)), ('MZgate', (1, 4)), ('BSgate', (0, 1)), ('CKgate', (0, 3)), ('Dgate', (2,)), ('Dgate', (4,)), ('Rgate', (3,)), ('Vgate', (3,)), ('Sgate', (0,)), ('BSgate', (1, 2)), ('Kgate', (3,)), ('S2gate', (4, 3)), ('S2gate', (4, 1))]: compile raised NetworkXUnfeasible: Graph contains a cycle or graph changed during iteration")
+print('gaussian_unitary: a program with Rgate(0.4).H compiles to a different transformation (dagger ignored)')
 print('REPLAY-VIOLATION')
 sys.exit(1)
